@@ -176,8 +176,9 @@ type c04Sim struct {
 	groups [][]int
 	pods   []*c04Pod
 	once   []bool // per group: some member has been bound (sticky)
-	hist   []string
-	dead   bool
+	hist    []string
+	dead    bool
+	maxPods int
 
 	allowed, rejected []string // effects of the current operation on the waiting-pod map
 
@@ -340,9 +341,9 @@ func (s *c04Sim) modelPG(g *c04Gang, kind string) {
 	}
 }
 
-func (s *c04Sim) counts(g *c04Gang) (w, b int) {
+func (s *c04Sim) counts(g *c04Gang, membersOnly bool) (w, b int) {
 	for _, p := range s.pods {
-		if p.gang != g {
+		if p.gang != g || (membersOnly && !p.known) {
 			continue
 		}
 		switch p.st {
@@ -356,14 +357,15 @@ func (s *c04Sim) counts(g *c04Gang) (w, b int) {
 }
 
 // groupSatisfied states the all-or-nothing rule on the model: every gang of the group is defined and holds at least
-// its minimum number of members that hold resources under its match policy. exempt reports that the once-satisfied
-// exemption was needed for at least one gang; zombie that a deleted pod had to be counted.
-func (s *c04Sim) groupSatisfied(grp int) (ok, exempt bool, detail string) {
+// its minimum number of pods that hold resources under its match policy. exempt reports that the once-satisfied
+// exemption was needed for at least one gang. With membersOnly, pods whose informer delete has been delivered (but which
+// a Permit / PostBind that raced with the delete put back into the cache) are not counted.
+func (s *c04Sim) groupSatisfied(grp int, membersOnly bool) (ok, exempt bool, detail string) {
 	ok = true
 	var parts []string
 	for _, gi := range s.groups[grp] {
 		g := s.gangs[gi]
-		w, b := s.counts(g)
+		w, b := s.counts(g, membersOnly)
 		var sat bool
 		switch {
 		case !g.recExists:
@@ -653,7 +655,8 @@ func (s *c04Sim) permit(t *rapid.T, p *c04Pod) {
 	} else {
 		s.c.Class("divergence:gang-missing-in-model-but-found(not asserted)")
 	}
-	ok, exempt, detail := s.groupSatisfied(g.grp)
+	ok, exempt, detail := s.groupSatisfied(g.grp, false)
+	okMembers, _, _ := s.groupSatisfied(g.grp, true)
 	if s.disturbedAfter[g.grp] {
 		s.c.Class(s.disturbKind[g.grp])
 		if len(s.groups[g.grp]) >= 2 {
@@ -675,40 +678,28 @@ func (s *c04Sim) permit(t *rapid.T, p *c04Pod) {
 			s.violation(t, sig, "Permit(%s) = Success but the gang group %v is not satisfied at that instant: %s", p.key, s.groupIDs(g.grp), detail)
 			return
 		}
-		zombieCounted := false
-		for _, q := range s.pods {
-			if q.gang.grp == g.grp && !q.known && (q.st == c04Waiting || q.st == c04Bound) {
-				zombieCounted = true
-			}
-		}
-		s.c.ClassIf(zombieCounted, "released-while-a-deleted-pod-is-counted(tolerated)")
+		s.c.ClassIf(!okMembers, "released-only-because-a-deleted-pod-is-counted(tolerated)")
 		p.phase = c04PhBinding
 		// what Coscheduling.Permit does on Success
 		s.allowed, s.rejected = nil, nil
 		s.mgr.AllowGangGroup(p.schedObj, s.h, Name)
 		s.logf("allowGangGroup(%s) -> allowed %v", p.name, s.allowed)
 		for _, q := range s.pods {
-			if q.phase == c04PhParked && q.decision == c04DecNone && q.gang.grp == g.grp {
-				s.violation(t, "release:waiting-member-not-allowed", "Permit(%s)=Success, AllowGangGroup left %s of gang %s waiting", p.key, q.key, q.gang.id)
-				return
-			}
+			// the statement only says when a pod MAY be released, not that all are: counted, not asserted
+			s.c.ClassIf(q.phase == c04PhParked && q.decision == c04DecNone && q.gang.grp == g.grp, "member-left-waiting-after-release(not asserted)")
 		}
 		return
 	}
 	s.logf("permit %s -> wait [%s]", p.name, detail)
 	s.c.Class("permit-wait")
 	s.c.ClassIf(ok, "wait-though-model-satisfied(not asserted)")
-	if ok && os.Getenv("VERIF_C04_DEBUG_WAIT") != "" {
-		s.violation(t, "debug:wait-though-satisfied", "Permit(%s)=Wait: %s", p.key, detail)
-		return
-	}
 	p.phase, p.decision = c04PhParked, c04DecNone
 }
 
 // ---------------------------------------------------------------- generation of the universe
 
-func c04GenSim(t *rapid.T, c *vk.Case) *c04Sim {
-	s := &c04Sim{c: c}
+func c04GenSim(t *rapid.T, c *vk.Case, maxPods int) *c04Sim {
+	s := &c04Sim{c: c, maxPods: maxPods}
 	defPolicy := rapid.SampledFrom([]string{extension.GangMatchPolicyOnceSatisfied, extension.GangMatchPolicyOnceSatisfied,
 		extension.GangMatchPolicyOnlyWaiting, extension.GangMatchPolicyWaitingAndRunning}).Draw(t, "defaultMatchPolicy")
 	s.args = &config.CoschedulingArgs{DefaultTimeout: metav1.Duration{Duration: 3 * time.Hour}, DefaultMatchPolicy: defPolicy}
@@ -777,7 +768,6 @@ func (s *c04Sim) pgAdd(t *rapid.T, g *c04Gang) {
 	s.modelPG(g, "add")
 }
 
-const c04MaxPods = 9
 
 // ---------------------------------------------------------------- rules
 
@@ -868,7 +858,7 @@ func (s *c04Sim) rules() []c04Rule {
 			s.disturb(p.gang.grp, "unschedulable-between-permits")
 			s.checkReject(t, e, "afterPostFilter", p)
 		}},
-		{name: "podCreate", w: 3, other: func() bool { return len(s.pods) < c04MaxPods }, run: func(t *rapid.T, _ *c04Pod, _ *c04Gang) {
+		{name: "podCreate", w: 3, other: func() bool { return len(s.pods) < s.maxPods }, run: func(t *rapid.T, _ *c04Pod, _ *c04Gang) {
 			g := s.gangs[rapid.IntRange(0, len(s.gangs)-1).Draw(t, "gang")]
 			s.newPod(g, rapid.IntRange(0, 9).Draw(t, "preBound") == 9)
 		}},
@@ -995,7 +985,7 @@ func (s *c04Sim) populate(t *rapid.T) {
 			s.pgAdd(t, g)
 		}
 		n := rapid.IntRange(0, g.min+1).Draw(t, "initialPods")
-		for i := 0; i < n && len(s.pods) < c04MaxPods; i++ {
+		for i := 0; i < n && len(s.pods) < s.maxPods; i++ {
 			p := s.newPod(g, rapid.IntRange(0, 9).Draw(t, "preBound") == 9)
 			if rapid.IntRange(0, 5).Draw(t, "lateAdd") != 5 {
 				s.deliverTo(p, 1)
@@ -1032,15 +1022,13 @@ func (s *c04Sim) finish() {
 	}
 }
 
-// ---------------------------------------------------------------- the history test
+// ---------------------------------------------------------------- the history tests
 
-func TestVerifC04History(t *testing.T) {
-	c04Silence()
-	rec := vk.New(t, "C04", "history")
-	rapid.Check(t, func(t *rapid.T) {
+func c04HistoryProp(rec *vk.Rec, maxPods int) func(t *rapid.T) {
+	return func(t *rapid.T) {
 		c := rec.Begin()
 		defer c.End()
-		s := c04GenSim(t, c)
+		s := c04GenSim(t, c, maxPods)
 		s.populate(t)
 		rules := s.rules()
 		t.Repeat(map[string]func(*rapid.T){
@@ -1048,5 +1036,271 @@ func TestVerifC04History(t *testing.T) {
 			"":     func(t *rapid.T) { s.checkPartition(t) },
 		})
 		s.finish()
+	}
+}
+
+// quick + thorough: <= 9 pods, ~40 rules per history
+func TestVerifC04History(t *testing.T) {
+	c04Silence()
+	rapid.Check(t, c04HistoryProp(vk.New(t, "C04", "history"), 9))
+}
+
+// thorough only: longer histories (-rapid.steps from the registry), up to 14 pods
+func TestVerifC04HistoryLong(t *testing.T) {
+	c04Silence()
+	rapid.Check(t, c04HistoryProp(vk.New(t, "C04", "historyLong"), 14))
+}
+
+// ---------------------------------------------------------------- concurrency variant (thorough, -race)
+//
+// The informer goroutine (pod updates, resyncs, deletes) races the scheduling goroutine (Permit, AllowGangGroup,
+// Unreserve, PostBind). Both scripts are drawn beforehand; the goroutines never touch rapid or the recorder.
+// Checked: the race detector; at quiescence every member is in exactly one set, and every pod that was not deleted is
+// in the set that the scheduling goroutine's own operations imply (informer updates without nodeName do not move a
+// pod, so any interleaving must end there); a Permit that returned Success had, in every gang of the group, at least
+// min pods that the scheduling goroutine itself had brought to waiting/bound (deleted or not: upper bound).
+
+type c04IEv struct {
+	pod  int
+	kind int // 0 update to a new version, 1 resync, 2 delete, 3 status-only update of the pod's PodGroup (opt-in)
+}
+
+type c04SEv struct {
+	pod    int
+	bindOK bool
+}
+
+func TestVerifC04Concurrent(t *testing.T) {
+	c04Silence()
+	rec := vk.New(t, "C04", "concurrent")
+	rapid.Check(t, func(t *rapid.T) {
+		c := rec.Begin()
+		defer c.End()
+		s := c04GenSim(t, c, 9)
+		// sequential prefix: every PodGroup and every pod is known to the cache
+		for _, g := range s.gangs {
+			if g.crd {
+				s.pgAdd(t, g)
+			}
+			n := rapid.IntRange(1, g.min+1).Draw(t, "pods")
+			for i := 0; i < n && len(s.pods) < s.maxPods; i++ {
+				s.deliverTo(s.newPod(g, false), 1)
+			}
+		}
+		// a short sequential warm-up with the scheduling rules only (no deletes, no lag): reach a mid-flight state
+		warm := []c04Rule{}
+		for _, r := range s.rules() {
+			switch r.name {
+			case "permit", "postBind", "bindOK", "bindFail", "unreserveRejected", "permitTimeout":
+				warm = append(warm, r)
+			}
+		}
+		for k := rapid.IntRange(0, 8).Draw(t, "warmup"); k > 0; k-- {
+			s.step(t, warm)
+		}
+		for _, p := range s.pods { // let the informer catch up: the concurrent phase starts from a consistent state
+			if p.delivered < p.apiVer {
+				s.deliverTo(p, p.apiVer)
+			}
+		}
+		s.checkPartition(t)
+		if s.dead {
+			return
+		}
+		np := len(s.pods)
+		kinds := []int{0, 0, 0, 1, 2}
+		if os.Getenv("VERIF_C04_PGRACE") != "" { // exploration only: PodGroup updates racing Permit (see the report)
+			kinds = append(kinds, 3, 3)
+		}
+		iev := make([]c04IEv, rapid.IntRange(1, 14).Draw(t, "informerEvents"))
+		for i := range iev {
+			iev[i] = c04IEv{pod: rapid.IntRange(0, np-1).Draw(t, "iPod"), kind: rapid.SampledFrom(kinds).Draw(t, "iKind")}
+		}
+		sev := make([]c04SEv, rapid.IntRange(1, 14).Draw(t, "schedulingEvents"))
+		for i := range sev {
+			sev[i] = c04SEv{pod: rapid.IntRange(0, np-1).Draw(t, "sPod"), bindOK: rapid.IntRange(0, 3).Draw(t, "bindOK") > 0}
+		}
+		// objects the scheduling goroutine works with are fixed before the race starts
+		for _, p := range s.pods {
+			if p.schedObj == nil {
+				p.schedObj = s.cycleObj(p, true)
+			}
+		}
+		// expected state as implied by the scheduling goroutine's operations alone
+		exp := make([]int, np)
+		for i, p := range s.pods {
+			exp[i] = p.st
+		}
+		once := append([]bool{}, s.once...)
+		var ilog, slog []string
+		var sviol []string
+		start := make(chan struct{})
+		done := make(chan struct{}, 2)
+		go func() { // informer goroutine
+			defer func() { done <- struct{}{} }()
+			<-start
+			for _, e := range iev {
+				p := s.pods[e.pod]
+				if e.kind == 3 {
+					if g := p.gang; g.crd && g.pgExists {
+						old := g.pgObj
+						g.pgVer++
+						g.pgObj = g.buildPG()
+						s.cache.onPodGroupUpdate(old, g.pgObj)
+						ilog = append(ilog, fmt.Sprintf("podgroup status update %s", g.id))
+					}
+					continue
+				}
+				if p.deleteDelivered {
+					continue
+				}
+				switch e.kind {
+				case 0:
+					p.apiVer++
+					s.cache.onPodUpdate(p.obj(p.delivered), p.obj(p.apiVer))
+					ilog = append(ilog, fmt.Sprintf("update %s v%d->v%d", p.name, p.delivered, p.apiVer))
+					p.delivered = p.apiVer
+				case 1:
+					s.cache.onPodUpdate(p.obj(p.delivered), p.obj(p.delivered))
+					ilog = append(ilog, fmt.Sprintf("resync %s", p.name))
+				default:
+					p.apiDeleted, p.deleteDelivered = true, true
+					s.cache.onPodDelete(p.obj(p.delivered))
+					ilog = append(ilog, fmt.Sprintf("delete %s", p.name))
+				}
+			}
+		}()
+		go func() { // scheduling goroutine: owns the waiting-pod map and the framework phases
+			defer func() { done <- struct{}{} }()
+			<-start
+			ctx := context.TODO()
+			unreserve := func(p *c04Pod, why string) {
+				s.mgr.Unreserve(ctx, framework.NewCycleState(), p.schedObj, "node-1", s.h, Name)
+				if exp[p.idx] == c04Waiting {
+					exp[p.idx] = c04Pending
+				}
+				p.phase, p.decision = c04PhQueue, c04DecNone
+				slog = append(slog, fmt.Sprintf("unreserve %s (%s)", p.name, why))
+			}
+			for _, e := range sev {
+				p := s.pods[e.pod]
+				switch {
+				case p.phase == c04PhQueue && exp[p.idx] != c04Bound:
+					_, st := s.mgr.Permit(ctx, p.schedObj)
+					switch st {
+					case PodGroupNotFound:
+						slog = append(slog, fmt.Sprintf("permit %s -> not found", p.name))
+						unreserve(p, "permit refused")
+					case Success, Wait:
+						exp[p.idx] = c04Waiting
+						slog = append(slog, fmt.Sprintf("permit %s -> %s", p.name, st))
+						if st == Wait {
+							p.phase, p.decision = c04PhParked, c04DecNone
+							break
+						}
+						p.phase = c04PhBinding
+						// upper bound of what can be counted: everything this goroutine brought to waiting / bound
+						for _, gi := range s.groups[p.gang.grp] {
+							g := s.gangs[gi]
+							w, b := 0, 0
+							for _, q := range s.pods {
+								if q.gang == g && exp[q.idx] == c04Waiting {
+									w++
+								}
+								if q.gang == g && exp[q.idx] == c04Bound {
+									b++
+								}
+							}
+							sat := w >= g.effMin
+							switch g.effPolicy {
+							case extension.GangMatchPolicyWaitingAndRunning:
+								sat = w+b >= g.effMin
+							case extension.GangMatchPolicyOnceSatisfied:
+								sat = sat || once[g.grp]
+							}
+							if !sat {
+								sviol = append(sviol, fmt.Sprintf("Permit(%s)=Success but gang %s (%s, min %d) has at most waiting=%d bound=%d", p.key, g.id, g.effPolicy, g.effMin, w, b))
+							}
+						}
+						s.mgr.AllowGangGroup(p.schedObj, s.h, Name)
+					}
+				case p.phase == c04PhParked && p.decision == c04DecNone:
+					p.decision = c04DecRejected
+					unreserve(p, "timeout")
+				case p.phase == c04PhParked && p.decision == c04DecRejected:
+					unreserve(p, "rejected")
+				case c04Binding(p):
+					if e.bindOK {
+						s.mgr.PostBind(ctx, p.schedObj, "node-1")
+						exp[p.idx] = c04Bound
+						once[p.gang.grp] = true
+						p.phase = c04PhDone
+						slog = append(slog, fmt.Sprintf("postBind %s", p.name))
+					} else {
+						unreserve(p, "bind failed")
+					}
+				case p.phase == c04PhPostBindDue:
+					s.mgr.PostBind(ctx, p.schedObj, "node-1")
+					exp[p.idx] = c04Bound
+					once[p.gang.grp] = true
+					p.phase = c04PhDone
+					slog = append(slog, fmt.Sprintf("postBind %s", p.name))
+				}
+			}
+		}()
+		close(start)
+		<-done
+		<-done
+		s.logf("CONCURRENT informer=%v scheduling=%v", ilog, slog)
+		deleted, bound := 0, 0
+		for _, p := range s.pods {
+			if p.deleteDelivered {
+				deleted++
+			}
+			if exp[p.idx] == c04Bound {
+				bound++
+			}
+		}
+		c.ClassIf(deleted > 0, "delete-raced")
+		c.ClassIf(bound > 0, "postbind-raced")
+		c.ClassIf(len(ilog) >= 3 && len(slog) >= 3, "both-goroutines>=3-ops")
+		if len(ilog) >= 3 && len(slog) >= 3 {
+			c.NonTrivial(s.describe())
+		}
+		if c.WantSample() {
+			c.Sample(map[string]any{"setup": strings.SplitN(s.describe(), " history=", 2)[0], "history": s.hist})
+		}
+		if len(sviol) > 0 {
+			s.violation(t, "concurrent:released-while-group-unsatisfied", "%s", strings.Join(sviol, "; "))
+			return
+		}
+		// quiescence
+		sums := s.mgr.GetGangSummaries()
+		for _, g := range s.gangs {
+			sum := sums[g.id]
+			if sum == nil {
+				continue
+			}
+			for _, key := range c04Sorted(sum.Children) {
+				if in := c04Sets(sum, key); len(in) != 1 {
+					s.violation(t, c04PartitionSig(in), "at quiescence gang %s: member %s is in sets %v", g.id, key, in)
+					return
+				}
+			}
+		}
+		for _, p := range s.pods {
+			if p.deleteDelivered {
+				continue
+			}
+			sum := sums[p.gang.id]
+			if sum == nil || !sum.Children.Has(p.key) {
+				s.violation(t, "concurrent:live-member-lost", "at quiescence live pod %s is not a child of %s", p.key, p.gang.id)
+				return
+			}
+			if in := c04Sets(sum, p.key); len(in) == 1 && in[0] != c04StName[exp[p.idx]] {
+				s.violation(t, "concurrent:wrong-set:want-"+c04StName[exp[p.idx]]+"-got-"+in[0], "at quiescence pod %s is %s in the cache, the scheduling operations imply %s", p.key, in[0], c04StName[exp[p.idx]])
+				return
+			}
+		}
 	})
 }
